@@ -2,6 +2,8 @@
    All statements are about Gen/GatesGen.v, which is regenerated from gate_library.py on every run. *)
 From Coq Require Import Reals List.
 From Coquelicot Require Import Coquelicot.
+From Coq Require Import Ring.
+From Yaqs Require Import LinAlg.TT.
 From Yaqs Require Import Base.CMat Model.Gates Gen.GatesGen Proofs.GatesP.
 Import ListNotations.
 
@@ -49,3 +51,15 @@ Theorem C18_closed_form_is_group : forall a b : R,
   expi_invol 0 XX = I4 /\ expi_invol 0 YY = I4 /\ expi_invol 0 ZZ = I4.
 Proof. intros. exact (conj (invol_group_XX a b) (conj (invol_group_YY a b) (conj (invol_group_ZZ a b) (conj invol_zero_XX (conj invol_zero_YY invol_zero_ZZ))))). Qed.
 Print Assumptions C18_closed_form_is_group.
+
+(* MPO form (extend_gate): over any commutative ring, the chain [T1, identity pass-through tensors, T2] is the two-site operator T1.T2
+   on the outer sites and the identity on every site in between, for any number of padded sites and any bond dimension; sites given in
+   descending order use the flipped chain, which represents the same operator read backwards (C10_flip_preserves_amplitudes).  The
+   correspondence check verifies that the real mpo_tensors have exactly this shape. *)
+Theorem C18_padded_gate_mpo : forall (K : Type) (k0 k1 : K) (kadd kmul ksub : K -> K -> K) (kopp : K -> K),
+  ring_theory k0 k1 kadd kmul ksub kopp (@eq K) ->
+  forall t1 t2 chi dd mids p1 p2, chiL K t1 = 1%nat -> chiR K t1 = chi -> chiL K t2 = chi -> chiR K t2 = 1%nat ->
+  amp K k0 k1 kadd kmul (t1 :: repeat (id_site K k0 k1 chi dd) (length mids) ++ [t2]) (p1 :: mids ++ [p2]) =
+  kmul (if forallb (diag dd) mids then k1 else k0) (bsum K k0 kadd chi (fun m => kmul (A K t1 p1 0%nat m) (A K t2 p2 m 0%nat))).
+Proof. exact padded_gate_mpo. Qed.
+Print Assumptions C18_padded_gate_mpo.
